@@ -172,6 +172,10 @@ func init() {
 							return true
 						}
 					}
+					// `contextErr(ctx)`: a helper that returns ctx.Err() unless ctx is nil
+					if k := c.ctxErrWrapper(originOf(Callee(info, ce))); k >= 0 && k < len(ce.Args) && identObj(info, ce.Args[k]) == ctxObj {
+						return true
+					}
 				}
 				return false
 			})
@@ -685,4 +689,62 @@ func (c *Ctx) loopsThrough(target *types.Func) []string {
 	}
 	sort.Strings(out)
 	return out
+}
+
+// ctxErrWrapper: h takes a context and returns its Err() on every path on which the context
+// is not nil (`if ctx == nil { return nil }; return ctx.Err()`); the index of that parameter,
+// or -1.  Polling through such a helper is polling.
+func (c *Ctx) ctxErrWrapper(h *types.Func) int {
+	hd := c.declOf[h]
+	if h == nil || hd == nil || hd.Body == nil {
+		return -1
+	}
+	hu := FuncUnit{h, hd, c.pkgOf[hd]}
+	hinfo := hu.Pkg.TypesInfo
+	sig, _ := h.Type().(*types.Signature)
+	if sig == nil || sig.Results().Len() != 1 || sig.Results().At(0).Type().String() != "error" {
+		return -1
+	}
+	hp := ctxParam(hinfo, hd)
+	if hp == nil {
+		return -1
+	}
+	idx := -1
+	for i, p := range paramObjs(hu) {
+		if p == hp {
+			idx = i
+		}
+	}
+	if idx < 0 {
+		return -1
+	}
+	hfc := c.cfgOf(hu, nil)
+	nilCtx := hfc.nilEdges(hp, true)
+	nret := 0
+	for _, b := range hfc.G.Blocks {
+		if !hfc.Live(b) {
+			continue
+		}
+		for _, n := range b.Nodes {
+			rs, ok := n.(*ast.ReturnStmt)
+			if !ok {
+				continue
+			}
+			nret++
+			if len(rs.Results) == 1 {
+				if ce, ok := ast.Unparen(rs.Results[0]).(*ast.CallExpr); ok && methodCalled(hinfo, ce, "context", "Context", "Err") {
+					if se, ok := ast.Unparen(ce.Fun).(*ast.SelectorExpr); ok && identObj(hinfo, se.X) == hp {
+						continue
+					}
+				}
+			}
+			if hfc.reachableAvoidingBlocks(b, nilCtx, nil) {
+				return -1
+			}
+		}
+	}
+	if nret == 0 {
+		return -1
+	}
+	return idx
 }
